@@ -70,9 +70,9 @@ Proofs/Lifecycle.vos Proofs/Lifecycle.vok Proofs/Lifecycle.required_vos: Proofs/
 Properties/C04.vo Properties/C04.glob Properties/C04.v.beautified Properties/C04.required_vo: Properties/C04.v Model/Types.vo Model/Book.vo Spec/RefBook.vo Spec/Monitors.vo Proofs/Lifecycle.vo Proofs/Refine.vo Proofs/Volumes.vo Proofs/LifeRef.vo
 Properties/C04.vio: Properties/C04.v Model/Types.vio Model/Book.vio Spec/RefBook.vio Spec/Monitors.vio Proofs/Lifecycle.vio Proofs/Refine.vio Proofs/Volumes.vio Proofs/LifeRef.vio
 Properties/C04.vos Properties/C04.vok Properties/C04.required_vos: Properties/C04.v Model/Types.vos Model/Book.vos Spec/RefBook.vos Spec/Monitors.vos Proofs/Lifecycle.vos Proofs/Refine.vos Proofs/Volumes.vos Proofs/LifeRef.vos
-Properties/C12.vo Properties/C12.glob Properties/C12.v.beautified Properties/C12.required_vo: Properties/C12.v Model/Types.vo Model/Book.vo Proofs/Grid.vo
-Properties/C12.vio: Properties/C12.v Model/Types.vio Model/Book.vio Proofs/Grid.vio
-Properties/C12.vos Properties/C12.vok Properties/C12.required_vos: Properties/C12.v Model/Types.vos Model/Book.vos Proofs/Grid.vos
+Properties/C12.vo Properties/C12.glob Properties/C12.v.beautified Properties/C12.required_vo: Properties/C12.v Model/Types.vo Model/Book.vo Model/Obs.vo Spec/RefBook.vo Spec/Monitors.vo Proofs/Grid.vo Proofs/Refine.vo Proofs/Volumes.vo Proofs/LevelsAccount.vo Proofs/RestGrid.vo
+Properties/C12.vio: Properties/C12.v Model/Types.vio Model/Book.vio Model/Obs.vio Spec/RefBook.vio Spec/Monitors.vio Proofs/Grid.vio Proofs/Refine.vio Proofs/Volumes.vio Proofs/LevelsAccount.vio Proofs/RestGrid.vio
+Properties/C12.vos Properties/C12.vok Properties/C12.required_vos: Properties/C12.v Model/Types.vos Model/Book.vos Model/Obs.vos Spec/RefBook.vos Spec/Monitors.vos Proofs/Grid.vos Proofs/Refine.vos Proofs/Volumes.vos Proofs/LevelsAccount.vos Proofs/RestGrid.vos
 Properties/C13.vo Properties/C13.glob Properties/C13.v.beautified Properties/C13.required_vo: Properties/C13.v Model/Types.vo Model/Side.vo Model/Book.vo Model/Obs.vo Proofs/NoTrade.vo
 Properties/C13.vio: Properties/C13.v Model/Types.vio Model/Side.vio Model/Book.vio Model/Obs.vio Proofs/NoTrade.vio
 Properties/C13.vos Properties/C13.vok Properties/C13.required_vos: Properties/C13.v Model/Types.vos Model/Side.vos Model/Book.vos Model/Obs.vos Proofs/NoTrade.vos
@@ -157,6 +157,12 @@ Proofs/Progress.vos Proofs/Progress.vok Proofs/Progress.required_vos: Proofs/Pro
 Proofs/Uniform.vo Proofs/Uniform.glob Proofs/Uniform.v.beautified Proofs/Uniform.required_vo: Proofs/Uniform.v Model/Types.vo Model/Rng.vo Proofs/Basic.vo Proofs/EnvProps.vo
 Proofs/Uniform.vio: Proofs/Uniform.v Model/Types.vio Model/Rng.vio Proofs/Basic.vio Proofs/EnvProps.vio
 Proofs/Uniform.vos Proofs/Uniform.vok Proofs/Uniform.required_vos: Proofs/Uniform.v Model/Types.vos Model/Rng.vos Proofs/Basic.vos Proofs/EnvProps.vos
+Proofs/LevelsAccount.vo Proofs/LevelsAccount.glob Proofs/LevelsAccount.v.beautified Proofs/LevelsAccount.required_vo: Proofs/LevelsAccount.v Model/Types.vo Model/Map.vo Model/Side.vo Model/Book.vo Model/Obs.vo Spec/RefBook.vo Spec/Monitors.vo Proofs/Basic.vo Proofs/Refine.vo Proofs/Volumes.vo Proofs/Views.vo
+Proofs/LevelsAccount.vio: Proofs/LevelsAccount.v Model/Types.vio Model/Map.vio Model/Side.vio Model/Book.vio Model/Obs.vio Spec/RefBook.vio Spec/Monitors.vio Proofs/Basic.vio Proofs/Refine.vio Proofs/Volumes.vio Proofs/Views.vio
+Proofs/LevelsAccount.vos Proofs/LevelsAccount.vok Proofs/LevelsAccount.required_vos: Proofs/LevelsAccount.v Model/Types.vos Model/Map.vos Model/Side.vos Model/Book.vos Model/Obs.vos Spec/RefBook.vos Spec/Monitors.vos Proofs/Basic.vos Proofs/Refine.vos Proofs/Volumes.vos Proofs/Views.vos
+Proofs/RestGrid.vo Proofs/RestGrid.glob Proofs/RestGrid.v.beautified Proofs/RestGrid.required_vo: Proofs/RestGrid.v Model/Types.vo Model/Map.vo Model/Side.vo Model/Book.vo Model/Obs.vo Spec/RefBook.vo Spec/Monitors.vo Proofs/Basic.vo Proofs/MapLemmas.vo Proofs/Grid.vo Proofs/Refine.vo Proofs/Volumes.vo Proofs/Views.vo Proofs/Reload.vo Proofs/PosVol.vo Proofs/LifeRef.vo Proofs/LevelsAccount.vo
+Proofs/RestGrid.vio: Proofs/RestGrid.v Model/Types.vio Model/Map.vio Model/Side.vio Model/Book.vio Model/Obs.vio Spec/RefBook.vio Spec/Monitors.vio Proofs/Basic.vio Proofs/MapLemmas.vio Proofs/Grid.vio Proofs/Refine.vio Proofs/Volumes.vio Proofs/Views.vio Proofs/Reload.vio Proofs/PosVol.vio Proofs/LifeRef.vio Proofs/LevelsAccount.vio
+Proofs/RestGrid.vos Proofs/RestGrid.vok Proofs/RestGrid.required_vos: Proofs/RestGrid.v Model/Types.vos Model/Map.vos Model/Side.vos Model/Book.vos Model/Obs.vos Spec/RefBook.vos Spec/Monitors.vos Proofs/Basic.vos Proofs/MapLemmas.vos Proofs/Grid.vos Proofs/Refine.vos Proofs/Volumes.vos Proofs/Views.vos Proofs/Reload.vos Proofs/PosVol.vos Proofs/LifeRef.vos Proofs/LevelsAccount.vos
 Properties/C01.vo Properties/C01.glob Properties/C01.v.beautified Properties/C01.required_vo: Properties/C01.v Model/Types.vo Model/Map.vo Model/Side.vo Model/Book.vo Model/Obs.vo Spec/RefBook.vo Proofs/Ledger.vo Proofs/Refine.vo Proofs/RefProps.vo Proofs/Volumes.vo Proofs/Reload.vo Proofs/Progress.vo
 Properties/C01.vio: Properties/C01.v Model/Types.vio Model/Map.vio Model/Side.vio Model/Book.vio Model/Obs.vio Spec/RefBook.vio Proofs/Ledger.vio Proofs/Refine.vio Proofs/RefProps.vio Proofs/Volumes.vio Proofs/Reload.vio Proofs/Progress.vio
 Properties/C01.vos Properties/C01.vok Properties/C01.required_vos: Properties/C01.v Model/Types.vos Model/Map.vos Model/Side.vos Model/Book.vos Model/Obs.vos Spec/RefBook.vos Proofs/Ledger.vos Proofs/Refine.vos Proofs/RefProps.vos Proofs/Volumes.vos Proofs/Reload.vos Proofs/Progress.vos
